@@ -33,6 +33,7 @@ def main(argv=None):
             if e.name and e.name.endswith(prop.lower()):
                 raise AnalysisError('no rule set implemented for %s' % prop)
             raise
+        from .lints import check_resolution
         prog = Program(args.repo)
         report = Report(prop, args.tier)
         gave_up = None
@@ -40,6 +41,9 @@ def main(argv=None):
             mod.run(prog, report, args.tier)
         except AnalysisError as e:
             gave_up = e
+        # premise of every rule: in the modules this property's rules
+        # consulted, a qualified name resolves to the one definition read
+        check_resolution(prog, report, only=set(prog.consulted))
         trouble = gave_up is not None or any(
             o.status == 'violation' for o in report.obs)
         if trouble and prog.assert_changed:
@@ -55,6 +59,7 @@ def main(argv=None):
                 mod.run(prog2, report2, args.tier)
             except AnalysisError as e:
                 gave_up2 = e
+            check_resolution(prog2, report2, only=set(prog2.consulted))
             known = core_load_known()
             open2 = [o for o in report2.obs if o.status == 'violation'
                      and core_match_known(o, prop, known) is None]
